@@ -21,7 +21,7 @@ from vf.xmodel import build_api, Schema, Rop
 
 SHARDS = {'quick': 16, 'thorough': 64}
 TIMEOUT = {'quick': 1200, 'thorough': 7200}
-MUST_HIT = ['Join.loader', 'Canon.permutation', 'Canon.partition-inputs', 'Canon.files',
+MUST_HIT = ['EarlierObject.rechecked', 'Join.loader', 'Canon.permutation', 'Canon.partition-inputs', 'Canon.files',
             'Canon.directory-tree', 'Canon.zip', 'Join.api-new', 'Join.api-clone', 'Canon.inferred-schema',
             'Join.null-key', 'Join.duplicate-key', 'Join.dangling-key', 'Join.multi-attribute-key']
 MUST_REACH = ['xtuml/load.py:ModelLoader.populate_connections', 'xtuml/meta.py:Link.compute_lookup_key',
@@ -208,6 +208,7 @@ def loader_checks(ctx, rng, schema, pop, tmpdir):
     if not ambiguous(schema):
         check_join(ctx, schema, pop, m0, expected, 'Join.loader')
     c0 = canon(m0)
+    ctx.later('loaded-model', lambda: canon(m0), 'loaded metamodel')
     # permutations of all statements (rows written with random named/positional/boolean spelling)
     stmts = statements_for(schema, pop, rng)
     limit = 5 if ctx.tier == 'quick' else 6
